@@ -1,5 +1,5 @@
 (* Extract_resample.v -- extraction of the resampling model (group `resample`). *)
 From Coq Require Import Extraction ExtrOcamlBasic.
-From PV Require Import Num Model_stats Entry_resample.
+From PV Require Import Num Model_stats Model_stats_session Entry_resample.
 Extraction Language OCaml.
-Extraction "model_resample.ml" run_resample.
+Extraction "model_resample.ml" run_resample run_session.
